@@ -8,6 +8,9 @@ ASSUMPTIONS = [
     'performs, for every worker of the configuration that then exists, iterations of the worker loop body with the real '
     'consumer functions (tryFindAndExecuteWork with cross-ring probing enabled, deferred steal-ring pop, executeNext) '
     'and then the owner\'s real tryWait(k)',
+    'std::deque<PerThreadData> (ThreadPool::threads_) replaced by its contract (harness/C03/deque_model.h: stable '
+    'references, insertion order, capacity 4 as model bound); arena buffers are typed objects (rt_defs '
+    'VF_TYPED_STORE_SLOT) - both only so that CBMC can constant-propagate; neither is code under test',
     'the verification hooks DISPENSO_VERIF_HOOK(1|2) (platform.h, -DDISPENSO_VERIF; no-ops otherwise) mark the two '
     'points inside the ring fast path at which the other thread is scheduled',
 ]
@@ -28,10 +31,10 @@ _RESIZE = '_ZN8dispenso10ThreadPool12resizeLockedEl'
 _TRYWAIT = ['_ZN8dispenso7TaskSet7tryWaitEm', '_ZN8dispenso17ConcurrentTaskSet7tryWaitEm']
 _SETS = {0: 'TaskSet', 1: 'ConcurrentTaskSet(kLightweight)'}
 _PRE = {1: 'a direct schedule(f, FQ) pending in the central queue', 2: 'a schedulePlaced(f, FQ) pending in the steal ring '
-        'of a parked worker (which worker: symbolic)', 4: 'an earlier ring-path bulk of a second TaskSet still in rings 0..N-1'}
+        'of parked worker 0 (worker 1 in the _w1 instance)', 4: 'an earlier ring-path bulk of a second TaskSet still in rings 0..N-1'}
 
 
-def inst(n, np_, count, tiers, st=0, site=0, pre=0, wsteps=2, early=0, timeout=1500, unwind=3):
+def inst(n, np_, count, tiers, st=0, site=0, pre=0, wsteps=2, early=0, timeout=1500, unwind=3, sleeper=0):
     npre = (n if pre & 4 else 0) + (1 if pre & 1 else 0) + (1 if pre & 2 else 0)
     k = count + npre
     name = '%s_n%d_%s_c%d' % ('ts' if st == 0 else 'cts', n, 'ctl' if np_ == 9 else 'to%d' % np_, count)
@@ -39,6 +42,8 @@ def inst(n, np_, count, tiers, st=0, site=0, pre=0, wsteps=2, early=0, timeout=1
         name += '_s%d' % site
     if pre:
         name += '_p%d' % pre
+    if sleeper:
+        name += '_w%d' % sleeper
     what = ('no resize at all (control)' if np_ == 9 else
             'a complete resize(%d) at hook site %s inside that call' % (np_, site or '1 or 2 (symbolic)'))
     pretext = '; '.join(v for b, v in sorted(_PRE.items()) if pre & b)
@@ -49,7 +54,7 @@ def inst(n, np_, count, tiers, st=0, site=0, pre=0, wsteps=2, early=0, timeout=1
         'repo_sources': _SRC, 'preinclude': ['harness/C03/deque_model.h'], 'rt_defs': {'VF_HAVE_THREAD_MODEL': 1, 'VF_TYPED_STORE_SLOT': 1}, 'models': ['aligned_alloc'],
         # -D for every translation unit of the solver run AND of the native replay
         'defs': {'VF_N': n, 'VF_NP': np_, 'VF_COUNT': count, 'VF_SET': st, 'VF_SITE': site, 'VF_PRE': pre,
-                 'VF_WSTEPS': wsteps, 'VF_EARLY': early, 'VF_MQ_CAP': 6, 'DISPENSO_VERIF': 1,
+                 'VF_WSTEPS': wsteps, 'VF_EARLY': early, 'VF_SLEEPER': sleeper, 'VF_MQ_CAP': 6, 'DISPENSO_VERIF': 1,
                  'DISPENSO_TUNE_STEAL_RING_SHARING': 1, 'DISPENSO_DISABLE_CASCADE_WAKERANGE': 1},
         'unwind': unwind, 'nthreads': 1, 'spin_loops': True, 'unwindset': {_R16: 17, _R4: 5},
         'unwind_fn': uf,
@@ -68,19 +73,27 @@ INSTANCES = [
     inst(2, 1, 2, ['quick', 'thorough'], site=2),
     # control: same history without any resize
     inst(2, 9, 2, ['quick', 'thorough']),
-    # the other scenarios (literal sizes); site 0 = symbolic choice of the hook site
+    # the other scenarios (literal sizes and literal hook site: a symbolic site choice makes all later state
+    # symbolic and the run does not finish in 25 min)
     inst(2, 1, 2, ['thorough'], site=1),
-    inst(2, 0, 2, ['thorough']),
-    inst(2, 3, 2, ['thorough']),
-    inst(1, 0, 1, ['thorough']),
-    inst(1, 2, 1, ['thorough']),
-    inst(2, 1, 1, ['thorough']),
+    inst(2, 0, 2, ['thorough', 'new'], site=1),
+    inst(2, 0, 2, ['thorough', 'new'], site=2),
+    inst(2, 3, 2, ['thorough', 'new'], site=1),
+    inst(2, 3, 2, ['thorough', 'new'], site=2),
+    inst(1, 0, 1, ['thorough', 'new'], site=1),
+    inst(1, 0, 1, ['thorough', 'new'], site=2),
+    inst(1, 2, 1, ['thorough', 'new'], site=1),
+    inst(1, 2, 1, ['thorough', 'new'], site=2),
+    inst(2, 1, 1, ['thorough', 'new'], site=1),
+    inst(2, 1, 1, ['thorough', 'new'], site=2),
     inst(2, 1, 2, ['thorough'], st=1, site=2),
-    inst(2, 0, 2, ['thorough'], st=1),
+    inst(2, 0, 2, ['thorough', 'new'], st=1, site=1),
+    inst(2, 0, 2, ['thorough', 'new'], st=1, site=2),
     # work already pending when the race happens: direct task in the central queue + placed task in a parked
     # worker's steal ring (resize must drain both; nobody else polls a steal ring of a 0-thread pool)
     inst(2, 0, 2, ['thorough'], site=2, pre=3, wsteps=3),
     inst(2, 3, 2, ['thorough'], site=2, pre=3, wsteps=3),
+    inst(2, 1, 2, ['thorough'], site=1, pre=2, wsteps=3, sleeper=1),
     # an earlier fork-join still sitting in the rings when the resize runs
     inst(2, 1, 1, ['thorough'], site=2, pre=4),
     inst(2, 9, 2, ['thorough'], pre=3, wsteps=3),
